@@ -101,7 +101,7 @@ def run(tier: str, seed: int, replay=None) -> int:
         hists, loops = [], [replay["loop"]]
     elif replay and replay.get("case") is not None:
         hists, loops = [replay["case"]], []
-    elif replay and replay.get("roles") is not None:
+    elif replay and (replay.get("roles") is not None or replay.get("grow") is not None):
         hists, loops = [], []
     else:
         r1, r2, r3 = rng.fork(1), rng.fork(2), rng.fork(3)
@@ -160,7 +160,7 @@ def run(tier: str, seed: int, replay=None) -> int:
     # (c) role-taker relations: the edge (company -> role) survives while the role taker leaves
     if replay and replay.get("roles") is not None:
         roles = [replay["roles"]]
-    elif replay and (replay.get("case") is not None or replay.get("loop") is not None):
+    elif replay:
         roles = []
     else:
         r4 = rng.fork(4)
@@ -192,8 +192,18 @@ def run(tier: str, seed: int, replay=None) -> int:
                                "explanation": "ceo = CEO(person); ceo.head_of = company (inference through the role taker), then the program "
                                               "drops the person / the role object while the company lives on: krrood must hold neither"})
     rep.extra["roles"] = {"cases": len(roles), "failed": nbad}
+    # (d) the expression tree of ONE query object grows between evaluations (a conclusion with a new domain-less variable is added)
+    if replay and replay.get("grow") is not None:
+        grow = [replay["grow"]]
+    elif replay:
+        grow = []
+    else:
+        grow = [{"rounds": 3 if tier == "quick" else 20, "extend_after": e, "evaluations": n} for e in (0, 1, 2) for n in (1, 2)]
+    c13.scenario_jobs(rep, "grow", grow, "one query object evaluated, then extended with a conclusion that introduces a new domain-less "
+                      "variable, evaluated again, everything dropped + gc.collect() + sweep: instances are still alive / the symbol graph "
+                      "grew (the evaluation's forget / release walk has to reach variables added after the first evaluation)")
     rep.extra["known_finding_instances"] = inst
     rep.samples = [{"case": h[:30]} for h in hists[-2:]] + [{"loop": p} for p in loops[:2]]
-    if not (replay and (replay.get("case") is not None or replay.get("loop") is not None or replay.get("roles") is not None)):
+    if not (replay and (replay.get("case") is not None or replay.get("loop") is not None or replay.get("roles") is not None or replay.get("grow") is not None)):
         c13.replay_findings(rep, PROP, model_ok, ACCEPT)
     return rep.finish()
